@@ -621,8 +621,8 @@ impl MetricValue {
         r.is_ok(),
         final(f)@ == old(f)@ + join_vals(vals@, vals@.len() as int),   // [C01 C02] packed values are rendered in list order, joined by ':', each exactly once
 //@LOOP 1
-        invariant i <= vals@.len(), f@ == old(f)@ + join_vals(vals@, i as int),
-        decreases vals@.len() - i,
+        invariant $i <= vals@.len(), f@ == old(f)@ + join_vals(vals@, $i as int),
+        decreases vals@.len() - $i,
 //@END
 
 impl VDisplay for MetricValue {
@@ -835,8 +835,8 @@ impl<'a> MetricFormatter<'a> {
     //@FN cadence/src/builder.rs :: impl<'a> MetricFormatter<'a> :: write_tags :: vis=
         ensures final(out)@ == old(out)@ + self.s_tags(),                    // [C01 C04] |#tag,... exactly when there are tags, in vector order, key:value or bare
     //@LOOP 1
-                invariant i <= self.tags@.len(), out@ == old(out)@ + "|#"@ + join_tags(self.tags@, i as int),
-                decreases self.tags@.len() - i,
+                invariant $i <= self.tags@.len(), out@ == old(out)@ + "|#"@ + join_tags(self.tags@, $i as int),
+                decreases self.tags@.len() - $i,
     //@END
     //@FN cadence/src/builder.rs :: impl<'a> MetricFormatter<'a> :: write_timestamp :: vis=
         ensures final(out)@ == old(out)@ + self.s_ts(),                      // [C01] |T<timestamp> exactly when a timestamp was supplied
